@@ -42,7 +42,7 @@ func (c *appendAssignChecker) VisitStmt(stmt ast.Stmt) {
 	}
 	for i, rhs := range assign.Rhs {
 		call, ok := rhs.(*ast.CallExpr)
-		if !ok || !isBuiltinFunc(c.ctx, call.Fun, "append") {
+		if !ok || !isBuiltinFunc(c.ctx, call.Fun, "append") || len(call.Args) == 0 {
 			continue
 		}
 		c.checkAppend(assign.Lhs[i], call)
